@@ -497,11 +497,38 @@ def run(ctx):
                 digest_var = s.var.op
         cmps = [c for c in calls_of(vh, ('memcmp', 'strncmp', 'strcmp', 'bcmp', 'strncasecmp', 'timingsafe_bcmp',
                                           'CRYPTO_memcmp'))]
-        ck.require(len(cmps) >= 1, 'validate_header: no comparison call found')
+        # a repository helper that takes both digests: accepted when it has the OR-fold shape (constant-time compare);
+        # any other accumulator (^=, +=) lets different digests compare equal and is reported, not analysis-broken
+        from ..rules.dlrules import orfold_compare
+        helper_mask = {}
+        bad_helper = False
+        if not cmps:
+            for ex in all_exprs(vh):
+                for c in calls_in(ex):
+                    nm = callee_name(c)
+                    cands = [g_ for g_ in prog.lib_funcs() if g_.name == nm] if nm else []
+                    args = [pstr(a, subst) for a in c.a[1:]]
+                    if len(cands) == 1 and digest_var in args and 'zck->header_digest' in args:
+                        kind = orfold_compare(prog, cands[0])
+                        if kind is None:
+                            bad_helper = True
+                            ck.ob('C06-c', 'R4.compare', vh.name, 'digest-compare', False,
+                                  '%s(%s) is not a byte-wise comparison (memcmp, or a helper that ORs the byte differences '
+                                  'together): digests that differ can be reported equal, so some changed header bytes '
+                                  'are accepted' % (nm, ', '.join(args)), c.file, c.line, config=config)
+                        else:
+                            helper_mask[nm] = Z if kind == 'zero-equal' else (P1 | POS)
+                            cmps.append(c)
+        if not cmps and not bad_helper:
+            # (a new static helper that is not a comparison primitive has been expanded in place by the normaliser)
+            ck.ob('C06-c', 'R4.compare', vh.name, 'digest-compare', False,
+                  'validate_header() contains no byte-wise comparison of the finalised hash with header_digest (memcmp or a '
+                  'helper that ORs the byte differences together): whatever it uses instead can report equality for '
+                  'digests that differ, so some changed header bytes are accepted', vh.file, fin[0].line, config=config)
         for c in cmps:
             args = [pstr(a, subst) for a in c.a[1:]]
             nm = callee_name(c)
-            ok = nm in ('memcmp', 'bcmp', 'CRYPTO_memcmp', 'timingsafe_bcmp') and len(args) == 3 and \
+            ok = (nm in ('memcmp', 'bcmp', 'CRYPTO_memcmp', 'timingsafe_bcmp') or nm in helper_mask) and len(args) == 3 and \
                 set(args[:2]) == set([digest_var, 'zck->header_digest']) and args[2] == DS
             ck.ob('C06-c', 'R4.compare', vh.name, 'digest-compare', ok,
                   '%s(%s): %s' % (nm, ', '.join(args), 'byte-wise comparison of the finalised hash with the stored '
@@ -511,12 +538,13 @@ def run(ctx):
         g = check_gate(prog, vh, {}, success=P1 | POS)
         # the only success exit of validate_header is on the ==0 edge of that comparison
         from ..rules.common import GateRule
-        gr = GateRule(prog, vh, {callee_name(cmps[0]): Z}, P1 | POS)
-        run_rule(prog, vh, gr)
-        ck.ob('C06-c', 'R2.gate', vh.name, 'compare==0', not gr.violations and gr.success_exits >= 1,
-              'validate_header returns 1 only on the ==0 edge of the digest comparison' if not gr.violations else
-              gr.violations[0].msg, vh.file, gr.violations[0].node.line if gr.violations else vh.line,
-              path=gr.violations[0].path if gr.violations else None, config=config)
+        if cmps:
+            gr = GateRule(prog, vh, {callee_name(cmps[0]): helper_mask.get(callee_name(cmps[0]), Z)}, P1 | POS)
+            run_rule(prog, vh, gr)
+            ck.ob('C06-c', 'R2.gate', vh.name, 'compare==0', not gr.violations and gr.success_exits >= 1,
+                  'validate_header returns 1 only on the equal edge of the digest comparison' if not gr.violations else
+                  gr.violations[0].msg, vh.file, gr.violations[0].node.line if gr.violations else vh.line,
+                  path=gr.violations[0].path if gr.violations else None, config=config)
         rh = check_gate(prog, fn, {'validate_header': POSITIVE}, success=P1 | POS)
         ck.ob('C06-c', 'R2.gate', fn.name, 'validate_header', not rh.violations,
               'success exits of read_header_from_file lie on the >=1 edge of validate_header' if not rh.violations
